@@ -25,7 +25,7 @@ class csv_reader:
         return opaque('literal rows of', args[0])
 
 
-@contract(IMP + 'run', props=['C02', 'C20'], name='importer_run_summary',
+@contract(IMP + 'run', props=['C02', 'C20'], name='importer_run_summary', local=True,
           assumed='callee summary of Importer.run for its two callers: consumes the reader and returns the importer\'s own document '
                   '(the tree it builds is the subject of the bounded stand-in import_mirrors_text)')
 class importer_run_summary:
@@ -36,6 +36,7 @@ class importer_run_summary:
 @contract(IMP + 'import_string', props=['C02', 'C20'])
 class import_string:
     """the text is split into lines and read with the literal tab reader; the result is what run() returns for those rows"""
+    uses = ('importer_run_summary',)
     def inputs(g):
         return {'self': mk_importer(g), 'text': g.str_sym('text', ['**kern\n4c\n*-\n'])}
 
@@ -178,12 +179,12 @@ def stage_list(imp):
     return None
 
 
-@contract(IMP + '_compute_spine_operator_token', props=['C02', 'C06'])
+@contract(IMP + '_compute_spine_operator_token', props=['C02', 'C06', 'C08'])
 class compute_spine_operator_token:
     """A spine-operator cell: a fresh node below the cell above (same header); '*^' / '*+' give two paths, '*-' none, '*v' one path
     unless the cell to the left is a '*v' of the same spine (then the join continues); the cancelled operator is recorded."""
     def inputs(g):
-        imp = mk_full_importer(g)
+        imp = mk_full_importer(g, g.choice('pending_operator', [False, True]))
         col = g.int('column', 0)
         row = g.seq('row', lambda e: e.str_sym('cell', ['*v', '*v', '*', '*^', '*-']))
         g.assume(col < len(row))
@@ -228,6 +229,15 @@ class compute_spine_operator_token:
         node = nxt[-1]
         return conj(nxt[:-1] == next_before, node.parent is parent, node.header_node is parent.header_node, node.stage == self._tree_stage)
 
+    def post_cancels_the_pending_operator(self, column_index, column_content):
+        # every join cell and every terminator closes the operator its path descends from (C08 reads cancelled_at_stage to decide
+        # which operator rows an excerpt has to replay)
+        parent = self._prev_stage_parents[column_index]
+        pending = parent.last_spine_operator_node
+        if pending is None or (column_content != '*v' and column_content != '*-'):
+            return True
+        return pending.token.cancelled_at_stage == self._tree_stage
+
     def raises(self, column_index, column_content):
         return {'Exception': disj(column_index >= len(self._prev_stage_parents), column_content == '*x')}
 
@@ -245,6 +255,7 @@ def temp_score_file():
 @contract(IMP + 'import_file', props=['C02', 'C20'])
 class import_file:
     """the file is opened for reading (utf-8, universal newlines off) and read with the same literal tab reader as import_string"""
+    uses = ('importer_run_summary',)
     def inputs(g):
         return {'self': mk_importer(g), 'file_path': g.ext('path', temp_score_file)}
 
